@@ -140,6 +140,13 @@ def loader_consts() -> dict:
     inner_origin = [n for n in ast.walk(adds) if isinstance(n, ast.Assign) and ast.unparse(n.targets[0]) == "inner_meta.origin"]
     if len(origin_self) != 1 or len(inner_origin) != 1 or ast.unparse(inner_origin[0].value) == "self":
         raise TranslateError("_add_sources: metadata.origin = self / inner_meta.origin = <other> not recognised")
+    # a pin without a recorded location carries no link at all (the writer prints candidate.link[1])
+    cands = [n for n in ast.walk(adds) if isinstance(n, ast.Call) and isinstance(n.func, ast.Name) and n.func.id == "Candidate"]
+    if len(cands) != 1 or len(cands[0].args) < 7 or ast.unparse(cands[0].args[6]) != "(None, url) if url else None":
+        raise TranslateError("_add_sources: Candidate(..., link=(None, url) if url else None, ...) not recognised")
+    kw = [ast.unparse(k.value) for c in _calls(single, "_add_sources") for k in c.keywords if k.arg == "url"]
+    if kw != ["url if url else None"]:
+        raise TranslateError("_parse_single_line: _add_sources(..., url=url if url else None) not recognised")
     # directive skip in _load_from_lines
     lfl = T.func(mod, "_load_from_lines")
     dsk = [T.literal(c.args[0]) for c in _calls(lfl, "startswith")]
